@@ -260,6 +260,7 @@ func checkC11(c *vlib.Ctx) (string, string) {
 		{Origins: []string{"https://a.example"}, Credentialed: true, Methods: []string{"PUT"}, RequestHeaders: []string{"X-A"}, ResponseHeaders: []string{"X-R"}, MaxAge: 30},
 		{Origins: []string{"https://a.example"}, PNANoCORS: true, Methods: []string{"PUT"}},
 		{Origins: []string{"https://a.example", "https://b.example"}, PNA: true, Methods: []string{"*"}, RequestHeaders: []string{"*"}, Status: 200},
+		{Origins: []string{"https://a.example", "*"}, Methods: []string{"PUT"}, ResponseHeaders: []string{"X-R", "X-S"}},
 		{Origins: []string{"https://a.example"}, Methods: []string{"PUT", "PATCH", "DELETE"}, RequestHeaders: []string{"X-A", "X-B", "X-C"}, ResponseHeaders: []string{"X-R", "X-S", "X-T"}, MaxAge: 30},
 	}
 	type cd struct {
